@@ -92,6 +92,29 @@ CHECKS = {
             "pwl_calibration_fn and three premade models: rows alone vs batched, reversed, thinned, all ordered row pairs.",
             "float32 equality up to 1e-5/1e-6 relative",
             "3/C09"),
+    "C10": (EX,
+            "bounded exhaustive enumeration of layer configurations x initializer ids x seed windows on freshly built real layers",
+            "Lattice (shapes up to rank 3/size 4, every per-dimension {free,monotone,valley,peak} assignment, 7 bound modes, 3 "
+            "initializer ids, joint unimodalities, explicit init range), PWL (equal_heights/equal_slopes), KFL and "
+            "CategoricalCalibration: closed forms from the docstrings, reference inequalities, own assert_constraints, "
+            "constraint is a no-op on the initial kernel.",
+            "seed window [seed*K, seed*K+K) for random initializers; float32 tolerance 1e-5",
+            "3/C10"),
+    "C12": (EX,
+            "bounded exhaustive enumeration of weight tensors (one assertion call each) against reference slacks",
+            "Lattice (19 configurations over all covered kinds) x all kernels of {-1,0,1}^n (n<=6; directed single-violation "
+            "sets above) x eps {1e-6,1e-3}, 2-unit [feasible|offender] kernels in both orders; PWL, Linear, Categorical, KFL "
+            "(function-level truth for sign-only deviations), RTL delegation: slack < -10 eps must raise "
+            "InvalidArgumentError, all slacks >= 10 eps must return.",
+            "weights exactly on a boundary are not judged",
+            "3/C12"),
+    "C17": (EX,
+            "bounded exhaustive enumeration of (shape, seed) and prefitting-kernel pattern products through the real structure builders",
+            "RTL: every multiset of input groups (<=6 inputs) x rank x lattice counts x seeds: rank, usage balance, "
+            "determinism, monotone-slot wiring, output labels, monotone function on a grid; random ensemble: features 2-6 x "
+            "rank x lattices x seeds; Crystals: real prefitting config/model x product of prefitting lattice kernel patterns.",
+            "seed windows; Crystals prefitting kernels over a 3-7 letter pattern alphabet",
+            "3/C17"),
     "C13": (EX,
             "bounded exhaustive enumeration of kernels x regularizer configurations against the literal docstring sums",
             "Lattice Laplacian/torsion on 7 (12) shapes x scalar/per-dimension amounts (with zeros) x all words of "
